@@ -151,6 +151,6 @@ Lemma raw_marker_padding : forall r pre post,
   rle_len (rle_pad pre post r) = (pre + rle_len r + post)%Z.
 Proof.
   intros r pre post _ _ _. unfold rle_pad.
-  change (rle_len ((0, pre) :: r ++ [(0, post)])) with (pre + rle_len (r ++ [(0, post)]))%Z.
+  change (rle_len ((0%Q, pre) :: r ++ [(0%Q, post)])) with (pre + rle_len (r ++ [(0%Q, post)]))%Z.
   rewrite rle_len_app. cbn [rle_len fold_right snd]. lia.
 Qed.
